@@ -38,9 +38,10 @@ ASSUMPTIONS = [
 ]
 COMPONENTS = {
     "real": ["Plan.emit_event / run_step / abort", "DefaultOptimizerStep", "DefaultEvaluatorStep", "EnsembleOptimizer", "tracker handler", "OptimizerContext observers"],
+    "real_also": ["BasicOptimizer (4% of the groups: one object, callbacks registered once, run() called 2-3 times)"],
     "stub": ["recording handler plug-in (two per plan level)", "recording observers", "SimEvaluator", "sim/scripted optimizer"],
 }
-PROBES = ["child_plan", "baseline_runs", "abort_at_event", "abort_in_evaluator", "abort_at_step_start_event", "abort_at_step_finished_event",
+PROBES = ["basic_optimizer_reused", "basic_optimizer_abort_callback_fires", "child_plan", "baseline_runs", "abort_at_event", "abort_in_evaluator", "abort_at_step_start_event", "abort_at_step_finished_event",
           "abort_by_handler", "abort_by_observer", "abort_in_inner_plan", "abort_by_outer_handler_on_inner_event",
           "nested_plan", "multi_step_plan", "unmatched_start_allowed", "further_step_refused", "too_few_in_run", "max_functions_in_run"]
 
@@ -97,6 +98,22 @@ def _group_scenario(gseed: int) -> dict:
 def generate(seed: int, index: int, tier: str) -> dict:
     batch = int(os.environ.get("VERIF_SEED", "0"))
     group = index // GROUP
+    if group % 25 == 24:
+        # the plan BasicOptimizer builds, run two or three times with one object: every run is a plan run of its own and
+        # must deliver each of its events exactly once to the callbacks registered once by the user
+        rng = random.Random(run_seed(batch, PROP + "-basic", index))
+        method = rng.choice(["slsqp", "nelder-mead", "l-bfgs-b"])
+        scn = gen.base_scenario(rng, PROP, nv=rng.randint(2, 3), nr_max=2, no_max=2, nc_max=0, npert_max=2, filters=False, stddev=False,
+                                transforms=False, linear=False, mask=False, inject_p=0.0, world_kind="quadratic",
+                                bounds_style=rng.choice(["finite", "none"]),
+                                step="optimizer", rms=None, pms=None, zero_real_weights=False)
+        # (BasicOptimizer creates its own plug-in manager: built-in sampler and a real SciPy method)
+        scn["configs"][0]["optimizer"] = {"method": method, "max_functions": rng.randint(2, 5), "tolerance": 1e-3}
+        scn["entry"] = "basic_twice"
+        scn["runs"] = rng.choice([2, 2, 3])
+        scn["abort_at_poll"] = rng.choice([None, None, 1, 2, 3])
+        scn["shape"] = scn["stratum"] = "basic-optimizer-reused"
+        return scn
     scn = _group_scenario(run_seed(batch, PROP + "-group", group))
     scn["member"] = index % GROUP
     scn["stratum"] = scn["shape"]
@@ -259,7 +276,86 @@ def check_run(ctx, scn, abort, viol, probes) -> int:
     return checked
 
 
+def _execute_basic_twice(scn: dict) -> dict:
+    """One BasicOptimizer object, callbacks registered once, run() called several times."""
+    import warnings
+
+    from ropt.plan import BasicOptimizer
+    from ropt.results import FunctionResults
+
+    from sim.evaluator import SimEvaluator
+    from sim.seeds import digest_bytes
+    from sim.world import World
+
+    warnings.simplefilter("ignore")
+    viol: list[dict] = []
+    probes = {"basic_optimizer_reused": 1}
+    ev = SimEvaluator(World(scn["world"]), scn.get("faults"), scn.get("mode"))
+    state = {"run": 0, "polls": 0}
+    deliveries: list[list[int]] = []   # per run: id() of every results tuple handed to the callback
+    polls: list[int] = []
+    kept = []                          # keeps the delivered tuples alive so that id() stays unique
+
+    def results_cb(results):
+        kept.append(results)
+        deliveries[-1].append(id(results))
+
+    def abort_cb() -> bool:
+        state["polls"] += 1
+        return scn.get("abort_at_poll") is not None and state["polls"] == scn["abort_at_poll"]
+
+    exc = None
+    calls_per_run: list[int] = []
+    exits: list = []
+    try:
+        bo = BasicOptimizer(copy.deepcopy(scn["configs"][0]), ev)
+        bo.set_results_callback(results_cb)
+        bo.set_abort_callback(abort_cb)
+        for _ in range(scn["runs"]):
+            deliveries.append([])
+            state["polls"] = 0
+            before = len(ev.calls)
+            bo.run()
+            polls.append(state["polls"])
+            calls_per_run.append(len(ev.calls) - before)
+            exits.append(int(bo.exit_code))
+    except Exception as e:  # noqa: BLE001
+        # nothing in this scenario family makes the library raise: an exception is a problem of the harness
+        raise RuntimeError(f"basic-optimizer-reused scenario raised {type(e).__name__}: {e}") from e
+    checked = 0
+    if exc is None:
+        for k, d in enumerate(deliveries):
+            checked += len(d)
+            if len(set(d)) != len(d):
+                viol.append({"clause": "event-delivered-more-than-once", "sig": {"entry": "basic-optimizer-reused"},
+                             "detail": f"run {k + 1} of one BasicOptimizer object: {len(d)} deliveries of {len(set(d))} distinct result "
+                                       f"events to a callback registered once"})
+        # the runs are identical plan runs (same configuration, deterministic evaluator, same abort rule)
+        for k in range(1, len(deliveries)):
+            if (len(deliveries[k]), polls[k], calls_per_run[k], exits[k]) != (len(deliveries[0]), polls[0], calls_per_run[0], exits[0]):
+                viol.append({"clause": "reused-object-run-differs", "sig": {"entry": "basic-optimizer-reused"},
+                             "detail": f"run 1: {len(deliveries[0])} result deliveries, {polls[0]} abort polls, {calls_per_run[0]} evaluator calls, "
+                                       f"exit {exits[0]}; run {k + 1}: {len(deliveries[k])}, {polls[k]}, {calls_per_run[k]}, exit {exits[k]}"})
+                break
+    if scn.get("abort_at_poll") is not None:
+        probes["basic_optimizer_abort_callback_fires"] = 1
+    return {
+        "violations": _dedupe(viol),
+        "nontrivial": checked >= 2,
+        "key": f"{H('basic', oracles.scenario_key(scn), scn['runs'], scn.get('abort_at_poll')):016x}",
+        "probes": probes,
+        "fired": dict(ev.fired),
+        "digest": digest_bytes(repr((exc, [len(d) for d in deliveries], polls, calls_per_run, exits)).encode()),
+        "evals": len(ev.calls),
+        "events": sum(len(d) for d in deliveries),
+        "stratum": scn.get("stratum"),
+        "summary": {"exception": exc, "deliveries": [len(d) for d in deliveries], "polls": polls, "exits": exits},
+    }
+
+
 def execute(scn: dict) -> dict:
+    if scn.get("entry") == "basic_twice":
+        return _execute_basic_twice(scn)
     viol: list[dict] = []
     probes: dict[str, int] = {}
 
